@@ -573,7 +573,7 @@ pub fn run(cfg: &Cfg) -> Stats {
     for k in 1..=cfg.pick(3, 4) {
         d.enumerate(&format!("langid alphabet ({} tokens), {k} subtags, '-'", alpha.len()), &alpha, k, b'-', b"");
     }
-    let n = cfg.pick(150_000, 3_000_000);
+    let n = cfg.pick(300_000, 3_000_000);
     d.strategy("G2 well-formed language ids, random case/separator masks (proptest)", &gen::s_langid_bytes(), cfg.seed, "c19-g2", n, |b| b.clone());
     d.strategy("G3 near-miss mutations of well-formed language ids (proptest)", &gen::s_near_miss_langid(), cfg.seed, "c19-g3", n, |b| b.clone());
     d.strategy("G4 weighted raw bytes (proptest)", &gen::s_raw(), cfg.seed, "c19-g4", n / 3, |b| b.clone());
@@ -615,7 +615,7 @@ pub fn run(cfg: &Cfg) -> Stats {
     });
     total = total.merge(s);
     // (c) non-string documents
-    let nd = cfg.pick(150_000, 3_000_000);
+    let nd = cfg.pick(400_000, 3_000_000);
     let s = run_strategy(&s_doc(), cfg.seed, "c19-docs", nd, |doc, st| check_doc(doc, st, Count::Hash));
     total = total.merge(s);
     total.subspace("non-string JSON documents from a recursive strategy (proptest)", nd, false);
@@ -623,7 +623,7 @@ pub fn run(cfg: &Cfg) -> Stats {
     check_primitives(&mut st);
     total = total.merge(st);
     // truncated / mutated JSON text
-    let nt = cfg.pick(100_000, 2_000_000);
+    let nt = cfg.pick(300_000, 2_000_000);
     let strat = (s_doc(), any::<proptest::sample::Index>(), proptest::option::weighted(0.5, (any::<proptest::sample::Index>(), any::<u8>())));
     let s = run_strategy(&strat, cfg.seed, "c19-text", nt, |(doc, cut, edit), st| {
         let mut t = doc.to_string().into_bytes();
